@@ -41,7 +41,7 @@ func allocRequests(base int) []wReq {
 			}
 		}
 	}
-	for _, cpu := range []float64{0, 0.5, 5} {
+	for _, cpu := range []float64{0, 0.5, 1, 1.5, 2, 2.5, 3.5, 5} { // whole and fractional values around the core counts 1..3
 		for _, mem := range []int64{0, 30, 60} {
 			out = append(out, wReq{Bind: false, CPU: cpu, Mem: mem})
 		}
@@ -50,7 +50,7 @@ func allocRequests(base int) []wReq {
 }
 
 func allocEnum(c *vcore.Ctx, prop string) {
-	c.SetRule("every valid node state (k cores with capacity {1,.5} core and usage {0,.3,.5,1} core, memory usage {0,40,80}/100, optional 2-NUMA split with NUMA memory {(50,50),(80,20)} usage {0,30}) x request (bound cpu {.3,.5,1,1.2,1.5,2} x limit {0,2x} x memory {0,30,60}; unbound cpu {0,.5,5} x memory) x share base {100,10} x max-share {-1,1,2}; " +
+	c.SetRule("every valid node state (k cores with capacity {1,.5} core and usage {0,.3,.5,1} core, memory usage {0,40,80}/100, optional 2-NUMA split with NUMA memory {(50,50),(80,20)} usage {0,30}) x request (bound cpu {.3,.5,1,1.2,1.5,2} x limit {0,2x} x memory {0,30,60}; unbound cpu {0,.5,1,1.5,2,2.5,3.5,5} x memory) x share base {100,10} x max-share {-1,1,2}; " +
 		"non-trivial = the node offers capacity >= 1 for the request; distinct by (config,state,request)")
 	envs := penvCache{}
 	defer envs.close()
